@@ -3,6 +3,7 @@
    (rsocket/stream_control.py), constants regenerated from the source in gen/GenConst.v. *)
 From Coq Require Import NArith List.
 From RSV Require Import gen.GenConst model.StreamIds proofs.StreamIdsProofs.
+From RSV Require model.Frame model.Fragmenter model.Endpoint proofs.EndpointProofs.
 Import ListNotations.
 Open Scope N_scope.
 
@@ -57,3 +58,14 @@ Theorem C13_finish : forall s id,
   forall x, x <> id -> mem x (active (finish s id)) = mem x (active s).
 Proof. intros s id. split; [apply finish_frees|intros x; apply finish_keeps]. Qed.
 Print Assumptions C13_finish.
+
+(* An incoming request frame (any of the four types, not a fragment) that re-uses the id of a stream which is still
+   registered is refused: state unchanged, the application handler is not called, one ERROR(REJECTED) on that id
+   (RSocketBase.handle_* -> StreamControl.assert_stream_id_available; model/Endpoint.v) *)
+Theorem C13_duplicate_request_rejected e f o u oid :
+  Endpoint.is_request_type f = true -> Fragmenter.ffollows f = false ->
+  Fragmenter.cache_get (Endpoint.cachek e) (Frame.fsid f) = None ->
+  Endpoint.tget (Endpoint.table e) (Frame.fsid f) = Some oid ->
+  Endpoint.recv_frame e f o u = (e, [Endpoint.XEnq (Endpoint.f_error (Frame.fsid f) EC_REJECTED [])]).
+Proof. exact (EndpointProofs.duplicate_request_rejected e f o u oid). Qed.
+Print Assumptions C13_duplicate_request_rejected.
